@@ -6,7 +6,8 @@ wt=$1; shift
 cd "$wt" || exit 2
 src="lib include products unittests utils CMakeLists.txt"
 git checkout -q -- $src 2>/dev/null
-B=$(ls -d _build_c* 2>/dev/null | head -1)
+B=$(ls -d _build_c* _build-wt 2>/dev/null | head -1)
+if [ -z "$B" ] && [ -f _build/CMakeCache.txt ] && grep -q "CMAKE_HOME_DIRECTORY:INTERNAL=$wt\$" _build/CMakeCache.txt; then B=_build; fi
 if [ -z "$B" ]; then
   B=_vbuild
   if [ ! -f $B/build.ninja ]; then
